@@ -84,6 +84,37 @@ func distinctFixtures() ([]dedupFixture, []pstest.VerifFixture, int) {
 	return out, fx, newest
 }
 
+// fixtureProperty: C20 as stated, on the real evaluator: a pass fixture is allowed, a fail fixture is rejected by the control it
+// is named for (or the restricted control that overrides it), once API-server defaulting is applied
+func fixtureProperty(c *Ctx, ev *recEvaluator, f pstest.VerifFixture, minors []int, when string) {
+	pod := apiDefaultGo(f.Pod)
+	in := J{"level": f.Level, "version": fmt.Sprintf("v1.%d", f.Minor), "check": f.Check, "kind": map[bool]string{true: "pass", false: "fail"}[f.Pass], "name": f.Name}
+	if when != "" {
+		in["when"] = when
+	}
+	for _, m := range minors {
+		rs, _ := ev.Eval(mkLV(f.Level, m), pod)
+		c.Eval(1)
+		if f.Pass {
+			if !allAllowed(rs) {
+				c.Violate(Finding{Desc: fmt.Sprintf("pass fixture %s/%s/pass/%s is rejected at %s%s: %s", f.Level, fmt.Sprintf("v1.%d", f.Minor), f.Name, verName(f.Level, m), when, bits(rs)), Key: "pass-rejected", Input: in})
+			}
+		} else {
+			ov := overridersOf(f.Check)
+			hit := false
+			for _, r := range rs {
+				id := strings.Split(r.Rev, "@")[0]
+				if !r.Allowed && (id == f.Check || ov[id]) {
+					hit = true
+				}
+			}
+			if !hit {
+				c.Violate(Finding{Desc: fmt.Sprintf("fail fixture %s/v1.%d/fail/%s is not rejected by %s (or its overrider) at %s%s: %s", f.Level, f.Minor, f.Name, f.Check, verName(f.Level, m), when, bits(rs)), Key: "fail-not-rejected", Input: in})
+			}
+		}
+	}
+}
+
 func runC20(c *Ctx) {
 	dist, fx, newest := distinctFixtures()
 	ev := newRecEvaluator()
@@ -99,29 +130,8 @@ func runC20(c *Ctx) {
 		if f.Minor == newest {
 			minors = append(minors, extra...)
 		}
-		pod := apiDefaultGo(f.Pod)
 		in := J{"level": f.Level, "version": fmt.Sprintf("v1.%d", f.Minor), "check": f.Check, "kind": map[bool]string{true: "pass", false: "fail"}[f.Pass], "name": f.Name}
-		for _, m := range minors {
-			rs, _ := ev.Eval(mkLV(f.Level, m), pod)
-			c.Eval(1)
-			if f.Pass {
-				if !allAllowed(rs) {
-					c.Violate(Finding{Desc: fmt.Sprintf("pass fixture %s/%s/pass/%s is rejected at %s: %s", f.Level, fmt.Sprintf("v1.%d", f.Minor), f.Name, verName(f.Level, m), bits(rs)), Key: "pass-rejected", Input: in})
-				}
-			} else {
-				ov := overridersOf(f.Check)
-				hit := false
-				for _, r := range rs {
-					id := strings.Split(r.Rev, "@")[0]
-					if !r.Allowed && (id == f.Check || ov[id]) {
-						hit = true
-					}
-				}
-				if !hit {
-					c.Violate(Finding{Desc: fmt.Sprintf("fail fixture %s/v1.%d/fail/%s is not rejected by %s (or its overrider) at %s: %s", f.Level, f.Minor, f.Name, f.Check, verName(f.Level, m), bits(rs)), Key: "fail-not-rejected", Input: in})
-				}
-			}
-		}
+		fixtureProperty(c, ev, f, minors, "")
 		// 2. serialized testdata describes the same pod
 		dir := "pass"
 		if !f.Pass {
@@ -185,6 +195,11 @@ func runC20(c *Ctx) {
 	}
 	if len(dist) > 0 {
 		c.Sample(ops[0])
+	}
+	// 4. the property once more, in reverse order, on the same long-lived evaluator (as the webhook keeps one): what earlier
+	// evaluations at other levels and versions left behind in the evaluator must not change a fixture's verdict
+	for i := len(fx) - 1; i >= 0; i-- {
+		fixtureProperty(c, ev, fx[i], []int{fx[i].Minor}, " (second pass, reverse order, same evaluator)")
 	}
 	c.Hist["fixtures"] = len(fx)
 	c.Hist["distinct"] = len(dist)
